@@ -1,6 +1,7 @@
 import NA.Proofs.C09Term
 import NA.Proofs.C09Saved
 import NA.Proofs.C09Compose
+import NA.Proofs.C09Exact
 import NA.Proofs.C09Skel
 import NA.Spec.SessDevice
 /-!
@@ -240,6 +241,98 @@ theorem fault_stops_and_reports (b : Backend) (env : Env) (prev : Status) (polic
   exact ⟨no_change_after_fault_partial b env pre post ρ r hsplit hbad, exit_nonzero_partial b env hf hd,
     hst.1, hst.2, fun ic => history_end_failed_partial b env ic prev policy now hf hd⟩
 
+/-- **compare_diff_recorded_iff** — the compare counterpart, one theorem for all five backends and
+every device behaviour.  For a compare run that ends:
+
+* `do-approve` records UPTODATE **iff** the run ended by `return` with neither an `ERROR>>>` line nor
+  `comp: *** device changed ***` in the log;
+* UPTODATE is recorded only if every reply the code inspects was good (login, every read step) and
+  **no difference was computed** (the script is empty);
+* any bad reply ⇒ DIFF is recorded (whatever the status file said before), `END: FAILED`, exit 1. -/
+theorem compare_diff_recorded_iff (b : Backend) (env : Env) (prev : Status) (policy : String) (now : Nat)
+    (hc : env.compare = true) (hd : (runProg b env).mode ≠ .diverge) :
+    ((doApprove true prev policy now (runProg b env).tr (exitCode (runProg b env))).status.compare.result = "UPTODATE"
+      ↔ ((runProg b env).mode = .ret ∧ (runProg b env).tr.contains .logChanged = false
+          ∧ (runProg b env).tr.contains .logErr = false))
+    ∧ ((doApprove true prev policy now (runProg b env).tr (exitCode (runProg b env))).status.compare.result = "UPTODATE"
+        → faulted (badChecked b) (runProg b env).tr = false
+          ∧ (!(runProg b env).plan.isEmpty || (runProg b env).ipt) = false)
+    ∧ (faulted (badChecked b) (runProg b env).tr = true
+        → (doApprove true prev policy now (runProg b env).tr (exitCode (runProg b env))).status.compare.result = "DIFF"
+          ∧ (doApprove true prev policy now (runProg b env).tr (exitCode (runProg b env))).endMsg = "FAILED"
+          ∧ (doApprove true prev policy now (runProg b env).tr (exitCode (runProg b env))).exit = 1) := by
+  have hiff : (doApprove true prev policy now (runProg b env).tr (exitCode (runProg b env))).status.compare.result = "UPTODATE"
+      ↔ ((runProg b env).mode = .ret ∧ (runProg b env).tr.contains .logChanged = false
+          ∧ (runProg b env).tr.contains .logErr = false) := by
+    rcases run_mode_cases b env with hm | hm | hm
+    · -- ended by return: exit status 0
+      have h0 : exitCode (runProg b env) = 0 := by simp [exitCode, hm]
+      rw [h0]
+      simp only [doApprove, setCompare, hm]
+      cases hchg : (runProg b env).tr.contains Ev.logChanged <;> cases herr : (runProg b env).tr.contains Ev.logErr <;>
+        simp <;> (try (split <;> simp_all))
+    · have h1 : exitCode (runProg b env) = 1 := by simp [exitCode, hm]
+      rw [h1]
+      simp only [doApprove, setCompare, hm]
+      simp
+      split <;> simp_all
+    · exact absurd hm hd
+  refine ⟨hiff, fun hup => ?_, fun hf => ?_⟩
+  · obtain ⟨hret, hchg, _⟩ := hiff.mp hup
+    obtain ⟨hgood, hlog⟩ := compare_ok_facts b env hc hret
+    refine ⟨hgood, ?_⟩
+    cases hh : (!(runProg b env).plan.isEmpty || (runProg b env).ipt) with
+    | false => rfl
+    | true => have := hlog hh; rw [hchg] at this; cases this
+  · have h1 := exit_nonzero_partial b env hf hd
+    rw [h1]
+    exact ⟨doApprove_failed_compare _ _ _ _, (doApprove_failed_exit _ _ _ _ _).2, (doApprove_failed_exit _ _ _ _ _).1⟩
+
+/-! ## exactly which change commands are on the wire ("in order", strengthened) -/
+
+/-- **Every run** (OK or not, approve or compare, whatever the device does): the change commands on
+the wire are a prefix of the planner's script (ASA, IOS, NSX); for Linux a prefix of the script
+followed — only after the whole script, only if iptables changed — by a prefix of the three fixed
+activation commands; for PAN-OS a prefix of the script in which a command may stand twice in a row
+(replayed by net/http).  Never a foreign change command, never out of order. -/
+theorem change_commands_always_prefix (env : Env) :
+    (∀ b, (b = .asa ∨ b = .ios ∨ b = .nsx) → ∃ k, changeSends (runProg b env).tr = (runProg b env).plan.take k)
+    ∧ (∃ k j, changeSends (runProg .linux env).tr = (runProg .linux env).plan.take k ++ linuxExtras.take j
+        ∧ (j ≠ 0 → (runProg .linux env).plan.take k = (runProg .linux env).plan ∧ (runProg .linux env).ipt = true))
+    ∧ (∃ k, Rep ((runProg .panos env).plan.take k) (changeSends (runProg .panos env).tr)) :=
+  ⟨fun b hb => change_commands_prefix_of_script b hb env, change_commands_shape_linux env,
+   change_commands_rep_prefix_panos env⟩
+
+/-- **Normal form for a run that ends OK** (approve).  ASA / IOS / NSX: the change commands on the wire
+are exactly the script.  Linux (real scp; the script does not itself contain the three activation
+commands — decidable hypothesis `hdis`): the script followed, iff iptables changed, by
+`chmod a+x …new`, `…new`, `mv -f …new …`.  PAN-OS: the script with exact replays (`Rep`-prefix that
+contains the script as a sublist); equality is false, see `panos_equality_counterexample`. -/
+theorem change_commands_normal_form (b : Backend) (env : Env) (hc : env.compare = false)
+    (hsim : b = .linux → env.simulated = false) (hok : (runProg b env).mode = .ret)
+    (hdis : b = .linux → ∀ x ∈ linuxExtras, x ∉ (runProg b env).plan) :
+    ((b = .asa ∨ b = .ios ∨ b = .nsx) → changeSends (runProg b env).tr = (runProg b env).plan)
+    ∧ (b = .linux → changeSends (runProg b env).tr
+        = (runProg b env).plan ++ (if (runProg b env).ipt = true then linuxExtras else []))
+    ∧ (b = .panos → (∃ k, Rep ((runProg b env).plan.take k) (changeSends (runProg b env).tr))
+        ∧ (runProg b env).plan.Sublist (changeSends (runProg b env).tr)) := by
+  refine ⟨fun hb => change_commands_exact b hb env hc hok, fun hb => ?_, fun hb => ?_⟩
+  · subst hb
+    exact change_commands_exact_linux env hc (hsim rfl) hok (hdis rfl)
+  · subst hb
+    exact ⟨change_commands_rep_prefix_panos env, (run_ok_facts .panos env hc (fun h => by cases h) hok).2.hS rfl⟩
+
+/-- PAN-OS: equality with the script is false even for a run that ends OK — the device closes the
+connection instead of answering the first `set` request (request 4), net/http sends it again. -/
+def envPanosSetReplayed : Env :=
+  { dev := mkDev .panos {} (some 4) "close", plan := fun _ => [["set a"], ["set b"]], fuel := 5 }
+
+set_option maxRecDepth 100000 in
+theorem panos_equality_counterexample :
+    (runProg .panos envPanosSetReplayed).mode = .ret
+    ∧ changeSends (runProg .panos envPanosSetReplayed).tr = [["set a"], ["set a"], ["set b"]]
+    ∧ (runProg .panos envPanosSetReplayed).plan = [["set a"], ["set b"]] := by decide
+
 /-! ## the property as stated is false of the unchanged code: three classes of counterexamples -/
 
 /-- F-C09a.  IOS, one change command.  The device answers `configure terminal` (sent by
@@ -340,6 +433,10 @@ example : (runProg .linux envLinuxOk).mode = .ret ∧ exitCode (runProg .linux e
     ∧ (runProg .linux envLinuxOk).plan = [["ip route add 10.3.0.0/16 via 10.1.2.3"]]
     ∧ (runProg .linux envLinuxOk).tr.contains (Ev.sent .save ["scp routing"]) = true := by decide
 
+set_option maxRecDepth 100000 in
+example : (∀ x ∈ linuxExtras, x ∉ (runProg .linux envLinuxOk).plan)
+    ∧ changeSends (runProg .linux envLinuxOk).tr = [["ip route add 10.3.0.0/16 via 10.1.2.3"]] ++ linuxExtras := by decide
+
 /-- Linux: the copy of the packet-filter file fails (reply 13 is the scp): nothing is activated -/
 def envLinuxScpFails : Env :=
   { dev := mkDev .linux {} none "scpfail_iptables", plan := fun _ => [["ip route add 10.3.0.0/16 via 10.1.2.3"]],
@@ -351,8 +448,22 @@ example : faulted (badChecked .linux) (runProg .linux envLinuxScpFails).tr = tru
     ∧ (runProg .linux envLinuxScpFails).tr.contains (Ev.sent .change ["chmod a+x /etc/network/packet-filter.new"]) = false := by
   decide
 
+/-- compare: device equal to the target: UPTODATE; a difference: DIFF with exit 0; a fault: DIFF with exit 1 -/
+def envAsaCompareSame : Env := { dev := mkDev .asa {} none "-", plan := fun _ => [], compare := true }
+def envAsaCompareDiff : Env := { dev := mkDev .asa {} none "-", plan := fun _ => [["route inside 10.3.0.0 255.255.0.0 10.1.2.3"]], compare := true }
+def envAsaCompareFault : Env := { dev := mkDev .asa {} (some 11) "silence", plan := fun _ => [], compare := true }
+
+set_option maxRecDepth 100000 in
+example : (doApprove true {} "p1" 0 (runProg .asa envAsaCompareSame).tr (exitCode (runProg .asa envAsaCompareSame))).status.compare.result = "UPTODATE"
+    ∧ (doApprove true {} "p1" 0 (runProg .asa envAsaCompareDiff).tr (exitCode (runProg .asa envAsaCompareDiff))).status.compare.result = "DIFF"
+    ∧ (doApprove true {} "p1" 0 (runProg .asa envAsaCompareDiff).tr (exitCode (runProg .asa envAsaCompareDiff))).exit = 0
+    ∧ faulted (badChecked .asa) (runProg .asa envAsaCompareFault).tr = true
+    ∧ (doApprove true {} "p1" 0 (runProg .asa envAsaCompareFault).tr (exitCode (runProg .asa envAsaCompareFault))).exit = 1 := by
+  decide
+
 def obligations : List Lean.Name := [
-  ``ok_only_if_all_sent_accepted_and_saved, ``fault_stops_and_reports,
+  ``ok_only_if_all_sent_accepted_and_saved, ``fault_stops_and_reports, ``compare_diff_recorded_iff,
+  ``change_commands_always_prefix, ``change_commands_normal_form, ``panos_equality_counterexample,
   ``no_change_after_fault_partial, ``no_save_after_fault_partial, ``exit_nonzero_partial,
   ``status_failed_or_diff_partial, ``history_end_failed_partial, ``ok_only_if_all_accepted_partial,
   ``ok_only_if_all_sent, ``ok_only_if_all_sent_panos, ``ok_only_if_saved, ``asa_saved_if_completes,
@@ -376,6 +487,13 @@ def obligations : List Lean.Name := [
   ``skel_nsx_ApplyCommands, ``skel_nsx_sendRequest, ``skel_nsx_CloseConnection,
   ``skel_device_ApproveOrCompare, ``skel_device_approve, ``skel_device_compare, ``skel_device_compareDevice,
   ``skel_device_applyCommands, ``skel_device_showCompareInfo, ``skel_doapprove_Main,
-  ``skel_status_SetApprove, ``skel_status_SetCompare, ``skel_all_covered ]
+  ``skel_status_SetApprove, ``skel_status_SetCompare,
+  ``skel_cisco_LoginEnable, ``skel_cisco_LoginEnable_waitPrompt, ``skel_httpdevice_TryReachableHTTPLogin,
+  ``skel_asa_LoadDevice, ``skel_asa_setTerminal, ``skel_asa_logVersion, ``skel_asa_checkDeviceName,
+  ``skel_ios_LoadDevice, ``skel_ios_setTerminal, ``skel_ios_logVersion, ``skel_ios_checkDeviceName,
+  ``skel_linux_LoadDevice, ``skel_linux_loginEnable, ``skel_linux_logVersion, ``skel_linux_checkDeviceName,
+  ``skel_linux_checkBanner, ``skel_linux_getDeviceRoutes, ``skel_linux_getDeviceIPTables,
+  ``skel_panos_LoadDevice, ``skel_panos_getAPIKey, ``skel_panos_checkHA, ``skel_nsx_LoadDevice, ``skel_nsx_getRawJSON,
+  ``skel_all_covered ]
 
 end NA.C09
